@@ -39,7 +39,7 @@ func init() {
 		mutant{"second mapping at the wrong offset", "bytes/mirrored_buffer.go", "\t\tsecondAddr = uintptr(unsafe.Pointer(&b.slice[size]))", "\t\tsecondAddr = uintptr(unsafe.Pointer(&b.slice[size-1]))", "C11-R4"},
 		mutant{"reservation not doubled", "bytes/mirrored_buffer.go", "\tb.slice, err = mmapAllocate(2*size, prefault)", "\tb.slice, err = mmapAllocate(size, prefault)", "C11-R4"},
 		mutant{"private mapping", "bytes/mirrored_buffer.go", "\t\tflags := syscall.MAP_FIXED | syscall.MAP_SHARED", "\t\tflags := syscall.MAP_FIXED | syscall.MAP_PRIVATE", "C11-R4"},
-		mutant{"size not rounded to a page", "bytes/mirrored_buffer.go", "\tif remainder := size % pageSize; remainder > 0 {\n\t\tsize += pageSize - remainder\n\t}\n", "", "C11-R4"},
+		mutant{"size not rounded to a page", "bytes/mirrored_buffer.go", "\tif remainder := size % pageSize; remainder > 0 {\n\t\tsize += pageSize - remainder\n\t}\n", "\t_ = pageSize\n", "C11-R4"},
 	)
 }
 
